@@ -33,11 +33,25 @@ impl Prop for P {
             assumptions: &["reference inflater implements RFC 1951/1950 (self-checked)"],
             dbg: false,
             simd: false,
-            exhaustive: None,
+            exhaustive: Some("LZ-code-buffer boundary sweep: 136 phases of (code position, flag bit) at which the 64 KiB LZ buffer fills with literal+long-match steps, lazy levels"),
         }
     }
     fn cases(tier: Tier) -> u64 {
         tier.pick(40_000, 400_000)
+    }
+    fn fixed_cases(tier: Tier) -> Vec<Case> {
+        // boundary sweep of the 64 KiB LZ code buffer in the lazy (normal) path: the buffer is filled with
+        // steps that each record a literal AND a >= 128 byte match; `prefix` shifts the phase of the
+        // code position / flag byte at which the buffer fills (period 8 flag bits x 17 code bytes)
+        use crate::gen::data::Seg;
+        let mut v = Vec::new();
+        let levels: &[u8] = tier.pick(&[6u8, 9][..], &[4u8, 5, 6, 7, 8, 9, 10][..]);
+        for prefix in 0..136u16 {
+            for &level in levels {
+                v.push(Case { data: Recipe { segs: vec![Seg::LazyEdge { records: 17_000, prefix, seed: 11 }], twice: false }, level, zlib: prefix % 2 == 0 });
+            }
+        }
+        v
     }
     fn strategy(tier: Tier) -> BoxedStrategy<Case> {
         let data = match tier {
